@@ -149,6 +149,25 @@ pub fn seed32(seed: u64, prop: &str, part: &str, shard: usize) -> [u8; 32] {
     s
 }
 
+pub fn safe_sig(sig: &str) -> String {
+    sig.chars().map(|c| if c.is_ascii_alphanumeric() || c == '-' || c == '_' { c } else { '_' }).collect()
+}
+
+/// Census mode: keep the first (smallest seen) example tape per signature in work/census/, in replay-file format.
+pub fn dump_census(prop: &str, part: &str, sig: &str, tape: &[u16], key: &str) {
+    let dir = format!("{}/work/census", crate::verif_root());
+    let _ = std::fs::create_dir_all(&dir);
+    let path = format!("{}/{}-{}.json", dir, prop, safe_sig(sig));
+    let better = match std::fs::read_to_string(&path).ok().and_then(|t| serde_json::from_str::<Value>(&t).ok()) {
+        Some(v) => v["case"].as_str().map_or(true, |c| c.len() > key.len()),
+        None => true,
+    };
+    if better {
+        let v = json!({"property": prop, "part": part, "sig": sig, "tape": tape, "case": key});
+        let _ = std::fs::write(&path, serde_json::to_string_pretty(&v).unwrap());
+    }
+}
+
 pub fn replay_dir() -> String {
     let d = format!("{}/replays", crate::verif_root());
     let _ = std::fs::create_dir_all(&d);
@@ -281,6 +300,9 @@ fn run_shard(part: &dyn Part, cases: usize, seed: u64, shard: usize, known: &Kno
                         }
                         Verdict::Known(sig) => {
                             *a.known_hits.entry(sig.clone()).or_default() += 1;
+                            if census() {
+                                dump_census(part.prop(), part.name(), sig, &tape, &rep.key);
+                            }
                         }
                         _ => {}
                     }
